@@ -187,6 +187,7 @@ var storeKinds = []string{"memory", "boltdb", "memory+enc", "boltdb+enc"}
 type boltSlot struct {
 	db   *bolt.DB
 	path string
+	gen  int // number of acra-tokens commands run on this slot (cli.go: each continues on a copy of the file)
 }
 
 var (
@@ -392,12 +393,16 @@ type exec struct {
 	typ  string
 	slot *boltSlot
 	raw  common.TokenStorage
-	top  *tap
-	pa   common.Pseudoanonymizer
-	pa2  common.Pseudoanonymizer // "another instance" on the same store
-	svc  *translator.TranslatorService
-	te   *pseudonymization.TokenEncryptor
-	tp   *pseudonymization.TokenProcessor
+	// BoltDB stacks: the forwarder below the wrappers; quiet: the harness's own inspection reads
+	// must not move access times (histories with time filters, cli.go)
+	rebind *rebindStore
+	quiet  bool
+	top    *tap
+	pa     common.Pseudoanonymizer
+	pa2    common.Pseudoanonymizer // "another instance" on the same store
+	svc    *translator.TranslatorService
+	te     *pseudonymization.TokenEncryptor
+	tp     *pseudonymization.TokenProcessor
 
 	tok, cry *detrand.Reader
 	// draw environment
@@ -459,6 +464,13 @@ func (dispatch) Read(p []byte) (int, error) {
 // the execution running on the calling goroutine.
 func setupWorld() {
 	fx.Quiet()
+	if os.Getenv("VERIF_SCRATCH") == "" {
+		if fi, err := os.Stat("/dev/shm"); err == nil && fi.IsDir() {
+			// acra-tokens opens the BoltDB file with synchronous commits (two fdatasync per command);
+			// durability is not the subject of this property
+			os.Setenv("VERIF_SCRATCH", "/dev/shm")
+		}
+	}
 	world = fx.NewWorld(fx.Options{Seed: "c10"})
 	var err error
 	encTok, err = storage.NewSCellEncryptor(world.KS)
@@ -488,7 +500,9 @@ func newExec(kind, typ, seed string) *exec {
 		x.raw = m
 	case strings.HasPrefix(kind, "boltdb"):
 		x.slot = getBolt()
-		x.raw = storage.NewBoltDBTokenStorage(x.slot.db)
+		// (a pure forwarder: lets cli.go bind another handle of the file after an acra-tokens command)
+		x.rebind = &rebindStore{inner: storage.NewBoltDBTokenStorage(x.slot.db), gran: common.DefaultAccessTimeGranularity}
+		x.raw = x.rebind
 	default:
 		ev.Fatalf("unknown store kind %q", kind)
 	}
@@ -995,6 +1009,10 @@ type rec struct {
 // inspect reads back every record id the tokenizer ever saved (Stat + Get through the complete
 // stack) and the number of records the store itself reports.
 func (x *exec) inspect() (recs []rec, total int, err error) {
+	if x.quiet && x.rebind != nil {
+		x.rebind.freeze()
+		defer x.rebind.thaw()
+	}
 	for _, k := range x.savedOrder {
 		c := tokenCtx(k.ctx)
 		md, serr := x.top.inner.Stat([]byte(k.id), c)
@@ -1013,6 +1031,12 @@ func (x *exec) inspect() (recs []rec, total int, err error) {
 			x.inStorage--
 		}
 		recs = append(recs, r)
+	}
+	if x.quiet && x.slot != nil {
+		// (VisitMetadata is a write transaction on BoltDB even when nothing changes; the histories with
+		// acra-tokens commands count the stored records with a read-only transaction instead)
+		total, err = x.countRecords()
+		return
 	}
 	_, total, err = x.visit("count", nil)
 	x.steps--
